@@ -164,6 +164,11 @@ impl Sphere {
     ///
     /// See <https://mathworld.wolfram.com/Circumsphere.html>.
     pub fn from_four_points(a: DVec3, b: DVec3, c: DVec3, d: DVec3) -> Sphere {
+        // Work in coordinates relative to the first point: the determinants below suffer
+        // from catastrophic cancellation for points that are far from the origin compared to
+        // their mutual distances.
+        let origin = a;
+        let (a, b, c, d) = (DVec3::ZERO, b - origin, c - origin, d - origin);
         let x = DVec4 {
             x: a.x,
             y: b.x,
@@ -197,7 +202,7 @@ impl Sphere {
             y: d_y,
             z: d_z,
         } * one_over_2a;
-        Self::new(center, radius)
+        Self::new(center + origin, radius)
     }
 
     /// Extend this sphere to include `x`, if necessary.
